@@ -240,7 +240,36 @@ func parseFields(obj any) ([]fieldInfo, error) {
 		}
 		out = append(out, fi)
 	}
+	// VisibleFields leaves out a promoted field that is hidden by a field of
+	// the same name at a shallower depth, or that is ambiguous between two
+	// embedded structs. A tagged field must not be dropped silently that way.
+	if n := countTagged(vt, make(map[reflect.Type]bool)); n != len(out) {
+		return nil, fmt.Errorf("type %v: %d tagged field(s) hidden by another field of the same name", vt, n-len(out))
+	}
 	return out, nil
+}
+
+// countTagged reports the number of setec-tagged fields of t and of the
+// structs it embeds, whether or not Go's selector rules make them visible.
+func countTagged(t reflect.Type, seen map[reflect.Type]bool) int {
+	seen[t] = true
+	var n int
+	for i := 0; i < t.NumField(); i++ {
+		f := t.Field(i)
+		if _, ok := f.Tag.Lookup("setec"); ok {
+			n++
+		}
+		if f.Anonymous {
+			ft := f.Type
+			if ft.Kind() == reflect.Pointer {
+				ft = ft.Elem()
+			}
+			if ft.Kind() == reflect.Struct && !seen[ft] {
+				n += countTagged(ft, seen)
+			}
+		}
+	}
+	return n
 }
 
 // checkUnmarshal checks whether v implements an unmarshaler type, and if so
